@@ -85,6 +85,7 @@ RECURSIVE PlainPs(_)
 PlainPs(ps) == \A i \in 1..Len(ps) :
    CASE ps[i].k \in {"el", "ref"} -> TRUE
      [] ps[i].k = "seq" -> ps[i].min = 1 /\ ps[i].max = "1" /\ PlainPs(ps[i].ps)
+     [] ps[i].k = "all" -> PMin(ps[i]) = 1 /\ PlainPs(ps[i].ps)
      [] OTHER -> FALSE
 RECURSIVE Plain(_, _, _)
 Plain(S, c, fuel) ==
